@@ -2,4 +2,11 @@ package main
 
 import "qedverif/cq"
 
-func dispatch15(cmd string, out *cq.Out, seed uint64, tier, arg string) bool { return false }
+func dispatch15(cmd string, out *cq.Out, seed uint64, tier, arg string) bool {
+	switch cmd {
+	case "transferlive":
+		transferLive(out, cq.NewRng(seed), seed, tier)
+		return true
+	}
+	return dispatch16(cmd, out, seed, tier, arg)
+}
